@@ -115,7 +115,7 @@ func init() {
 	addSpec(&Spec{ID: "C10", Title: "a failed read or seek never turns into silently wrong rows", Level: "fault_enumeration",
 		Shapes: portfolioMain,
 		Rule: "files as C08 (incl. one reference-written file per shape); a fault-free run counts the source calls N (Read and Seek; thrift reads byte-wise so N is in the thousands) and EVERY k in 0..N-1 is re-run with the k-th call failing, modes (0,err) and (partial,err), " +
-			"once with a full-read source, once under chunk-7 fragmentation and once through a source that also offers ReadByte/ReadAt/WriteTo; oracle = error reported by the constructor or Error(), or else rows exactly the file's rows; no panic; distinct = (file, frag, k, mode); non-trivial = the failing call is a seek or reads a page header or page body (faults inside the footer can only end in a constructor error)",
+			"once with a full-read source, once under chunk-7 fragmentation and once through a source that also offers ReadByte/ReadAt/WriteTo; oracle = error reported by the constructor or Error(), or else rows exactly the file's rows; no panic — also not from one more Scan after Next returned false; distinct = (file, frag, k, mode); non-trivial = the failing call is a seek or reads a page header or page body (faults inside the footer can only end in a constructor error)",
 		Require: []string{"site_seek", "site_footer_length", "site_footer", "site_page_header", "site_page_body_uncompressed", "site_page_body_snappy", "site_page_body_gzip",
 			"outcome_ctor_error", "outcome_iteration_error"},
 		Exhaustive: func(r *Run) bool { return true },
@@ -127,9 +127,9 @@ func init() {
 		Shapes: portfolioMain,
 		Rule: "EVERY strict prefix (length 0..len-1) of: the C08 workload files (0.3-12 KiB, 3 codecs), one ~180 KiB uncompressed file (byte patterns that look like footer lengths beyond one I/O buffer), " +
 			"reference-written files whose footer tail reads as a plausible footer length (created_by chosen accordingly), and files whose string VALUES embed the footer of a shorter version of the same file followed by 8 arrangements of length words and magic, or the whole trailer / body of other files of the same struct and of a different struct, or (self-footer) the file's OWN trailer as the last bytes of its first and second row group; " +
-			"plus the 1..8-byte tail cuts of ~800 tiny files of varying footer size; thorough adds 20-60 KiB files with targeted cuts; oracle = constructor or Error() reports an error, no panic — except for prefixes that the reference parser finds to be valid files by themselves (not judged); " +
+			"the 0..12-byte prefixes and every prefix of a zero-row file, each read right after a valid zero-row file in the same process; plus the 1..8-byte tail cuts of ~800 tiny files of varying footer size; thorough adds 20-60 KiB files with targeted cuts; oracle = constructor or Error() reports an error, no panic — except for prefixes that the reference parser finds to be valid files by themselves (not judged); " +
 			"distinct = (file, cut); non-trivial = the prefix ends in the bytes PAR1 (the trailer check alone cannot refuse it) or the cut lies in the footer, the trailer, or exactly at a page or row-group boundary",
-		Require:    []string{"cut_footer", "cut_footer_length", "cut_trailer_magic", "cut_page_header", "cut_page_body", "cut_between_row_groups", "cut_page_boundary", "big_file_cuts", "resonant_footer_cuts", "embedded_footer_cuts", "trailer_files", "self_footer_row_groups_ending_in_own_trailer", "prefixes_ending_in_magic", "embedded_files_of_another_struct"},
+		Require:    []string{"cut_footer", "cut_footer_length", "cut_trailer_magic", "cut_page_header", "cut_page_body", "cut_between_row_groups", "cut_page_boundary", "big_file_cuts", "resonant_footer_cuts", "embedded_footer_cuts", "trailer_files", "self_footer_row_groups_ending_in_own_trailer", "prefixes_ending_in_magic", "embedded_files_of_another_struct", "prefixes_read_right_after_a_valid_empty_file"},
 		Exhaustive: func(r *Run) bool { return true },
 		Extra: func(r *Run, cov map[string]interface{}) {
 			cov["exhaustive_note"] = "exhaustive over prefix lengths for every small file; large files (thorough) use the targeted cut set"
@@ -214,12 +214,12 @@ func init() {
 		Shapes: portfolioMain,
 		Rule: "carrier files written by the reference writer (3 row groups, up to 3 pages per chunk, each of the 3 supported codecs); one column chunk is rewritten to use one unsupported feature, really encoded: " +
 			"dictionary page + RLE_DICTIONARY / PLAIN_DICTIONARY data page, dictionary page followed by plain pages, index page, data page v2, DELTA_BINARY_PACKED, DELTA_LENGTH_BYTE_ARRAY, DELTA_BYTE_ARRAY, BYTE_STREAM_SPLIT, RLE booleans, " +
-			"BIT_PACKED definition / repetition levels, codecs LZO (opaque body), BROTLI, LZ4, ZSTD, LZ4_RAW and unassigned codec ids (8, 1000, -1), and encoding ids by number in the value / definition-level / repetition-level slot of a page header (8 without dictionary page, 10, 64, 255, and 256, 259, 65536, -1 which only look supported after truncation); every column x feature (quick: 2 (row group, page position) placements; thorough: all 9 x 3 codecs); " +
+			"BIT_PACKED definition / repetition levels, codecs LZO (opaque body), BROTLI, LZ4, ZSTD, LZ4_RAW and unassigned codec ids (8, 1000, -1), and encoding ids by number in the value / definition-level / repetition-level slot of a page header (8 without dictionary page, 10, 64, 255, and 256, 259, 65536, -1 which only look supported after truncation); the same on pages whose header exceeds 64 KiB and (shape p8) on files whose row groups exceed 1 MiB; every column x feature (quick: 2 (row group, page position) placements; thorough: all 9 x 3 codecs), each carrier read through a plain ReadSeeker and through a source that also offers ReadAt; " +
 			"oracle = constructor or Error() reports an error, no panic; distinct = case id; non-trivial = feature placed in a later row group or a later page",
 		Require: []string{"feature_dictionary_rle", "feature_dictionary_plain", "feature_dictionary_page_then_plain", "feature_index_page", "feature_data_page_v2", "feature_delta_binary_packed",
 			"feature_delta_length_byte_array", "feature_delta_byte_array", "feature_byte_stream_split", "feature_rle_boolean", "feature_bit_packed_def_levels", "feature_bit_packed_rep_levels",
 			"feature_codec_lzo", "feature_codec_brotli", "feature_codec_lz4", "feature_codec_zstd", "feature_codec_lz4_raw", "feature_codec_unassigned_8", "feature_codec_unassigned_1000", "feature_codec_negative", "feature_in_later_row_group", "feature_in_later_page",
-			"feature_value_encoding_id_8", "feature_value_encoding_id_256", "feature_def_level_encoding_id_8", "feature_rep_level_encoding_id_256", "feature_def_level_encoding_id_-1"},
+			"carriers_with_row_groups_over_1MiB", "reads_through_a_source_with_ReadAt", "feature_bighdr:data_page_v2", "feature_value_encoding_id_8", "feature_value_encoding_id_256", "feature_def_level_encoding_id_8", "feature_rep_level_encoding_id_256", "feature_def_level_encoding_id_-1"},
 	})
 	addSpec(&Spec{ID: "C05", Title: "parquetgen never emits silently wrong code", Level: "translation_validation",
 		Rule: "programs = every struct shape of the bounded grammar (ordered forests of {leaf, group} x {required, optional, repeated}, depth <= 3, leaf types round-robin over the 8 primitives): " +
